@@ -938,7 +938,9 @@ def oversize_histories(r, thorough):
     """directed: a small message buffer and long names, so that some unsolicited frames (EVENTs naming a long user in a
     long channel) do not fit: the receiving connection ends through the loop's error path (nothing of the batch is written,
     its user is cleaned up, which may cascade), replies that do not fit are replaced by RESPONSE_TOO_LARGE.  Compared with
-    Model/ServerX.step_x; ends with the audit."""
+    Model/ServerX.step_x; ends with the audit.  The long channel never has more than two members and the short one keeps
+    its first owner, so that no hand-over pick (hash-set order, learnt from an EVENT that might itself be undeliverable)
+    is ever needed."""
     import srvmon
     cases = []
     for _ in range(40 if thorough else 8):
@@ -948,22 +950,24 @@ def oversize_histories(r, thorough):
         g = Gen(r, cfg)
         long_user = "u" * r.choice([70, 90, 110])
         big = "!" + "c" * r.choice([70, 90, 110]) + "@localhost"
-        ks = _login(g, ["alice", "bob", long_user, "dave"])
-        order = r.sample(["alice", "bob", long_user], 3)
-        for u in order:
+        ks = _login(g, ["bob", "alice", long_user, "dave"])
+        g.send(ks["bob"], frame("JOIN", [("id", g.rid()), ("channel", "!c1@localhost")]), [])       # owner of the short channel, never leaves
+        for u in r.sample(["alice", long_user, "dave"], 3):
             g.send(ks[u], frame("JOIN", [("id", g.rid()), ("channel", "!c1@localhost")]), [])
-        for u in order:
+        pair = r.sample(["alice", long_user], 2)
+        for u in pair:
             g.send(ks[u], frame("JOIN", [("id", g.rid()), ("channel", big)]), [])
             if r.random() < 0.5:
-                g.send(ks[r.choice(order)], frame("MEMBERS", [("id", g.rid()), ("channel", big)]), [])
-        g.send(ks["dave"], frame("JOIN", [("id", g.rid()), ("channel", "!c1@localhost")]), [])
+                g.send(ks[r.choice(pair)], frame("MEMBERS", [("id", g.rid()), ("channel", big)]), [])
         for _ in range(r.randint(3, 8)):
-            u = r.choice(["alice", "bob", long_user, "dave"])
+            u = r.choice(["alice", long_user, "dave"])
             x = r.random()
-            if x < 0.3:
-                g.send(ks[u], frame("LEAVE", [("id", g.rid()), ("channel", r.choice([big, "!c1@localhost"]))]), [])
+            if x < 0.25:
+                g.send(ks[u], frame("LEAVE", [("id", g.rid()), ("channel", big if u != "dave" else "!c1@localhost")]), [])
+            elif x < 0.4 and u != "dave":
+                g.send(ks[u], frame("JOIN", [("id", g.rid()), ("channel", big)]), [])
             elif x < 0.6:
-                g.send(ks[u], frame("MEMBERS", [("id", g.rid()), ("channel", big)]), [])
+                g.send(ks[u], frame("MEMBERS", [("id", g.rid()), ("channel", r.choice([big, "!c1@localhost"]))]), [])
             elif x < 0.8:
                 pl = b"x" * r.choice([1, 200])
                 g.send(ks[u], frame("BROADCAST", [("id", g.rid()), ("channel", r.choice([big, "!c1@localhost"])), ("length", len(pl))], pl), [])
